@@ -150,14 +150,6 @@ def parseRelName (s : String) : Option Rel :=
       | _ => none
   | _ => none
 
-/-- per relation: its validator calls in source order and the number of explicit `raise` statements,
-    as read from the source text at every run -/
-def guardTable : Option (List (Rel × List Guard × Nat)) :=
-  CBV.Gen.c03Guards.mapM fun ((o, a, b), gs, raises) => do
-    let rel : Rel := ⟨← Q.ofString? o, ← Q.ofString? a, ← Q.ofString? b⟩
-    let gs ← gs.mapM Guard.ofStrings?
-    some (rel, gs, raises)
-
 /-- what the model functions below implement: the same validators, and as many further explicit rejections
     (`raise` statements: the bracket tests of the root finders, the `TOL` test, the sign test, the `isnan` test, the
     test `length > start_size > 0`) -/
